@@ -1,7 +1,10 @@
 //@ props=C01,C02,C03,C04,C07,C08,C17
 //! Proof library for src/poly1305/poly1305_soft.rs (44/44/42-bit limb implementation of Poly1305).
-//! Everything here is PROVED except the two std shims at the end of the file (marked ASSUMED).
-//! The RFC-level spec (poly_p, poly_r, poly_s, poly_acc, poly1305_spec) lives in spec_poly1305.rs.
+//! Everything in this file is PROVED (no assume / admit / external_body). The std / derive shims used by the sidecar
+//! are: shim_u64_to_le_bytes and <[T]>::fill (shared, spec/verif_extern.rs) and shim_poly1305_default /
+//! shim_poly1305_zeroize (contracts/poly1305.vc, bottom block).
+//! The RFC-level spec (poly_p, poly_r, poly_s, poly_acc, poly1305_spec) lives in spec_poly1305.rs; it is pinned by
+//! the RFC 8439 known-answer test at the end of this file.
 use vstd::prelude::*;
 use crate::verif_spec::*;
 use crate::spec_poly1305::*;
@@ -1174,23 +1177,26 @@ pub proof fn lemma_u64_bytes(x: u64, b: Seq<u8>)
 }
 
 // ------------------------------------------------------------------------------------------------
-// known-answer test pinning the RFC-level spec functions (RFC 8439 section 2.5.2)
+// known-answer test pinning the RFC-level spec functions of spec_poly1305.rs (RFC 8439 section 2.5.2:
+// key 85d6be78..4149f51b, message "Cryptographic Forum Research Group", tag a8061dc1305136c6c22b8baf0c0127a9).
+// (the seq! literals must be inline: `by (compute)` does not see through `let`)
 // ------------------------------------------------------------------------------------------------
-pub proof fn kat_rfc8439_2_5_2()
-    ensures
-        poly1305_spec(
-            seq![0x85u8, 0xd6u8, 0xbeu8, 0x78u8, 0x57u8, 0x55u8, 0x6du8, 0x33u8, 0x7fu8, 0x44u8, 0x52u8, 0xfeu8, 0x42u8, 0xd5u8, 0x06u8, 0xa8u8, 0x01u8, 0x03u8, 0x80u8, 0x8au8, 0xfbu8, 0x0du8, 0xb2u8, 0xfdu8, 0x4au8, 0xbfu8, 0xf6u8, 0xafu8, 0x41u8, 0x49u8, 0xf5u8, 0x1bu8],
-            seq![0x43u8, 0x72u8, 0x79u8, 0x70u8, 0x74u8, 0x6fu8, 0x67u8, 0x72u8, 0x61u8, 0x70u8, 0x68u8, 0x69u8, 0x63u8, 0x20u8, 0x46u8, 0x6fu8, 0x72u8, 0x75u8, 0x6du8, 0x20u8, 0x52u8, 0x65u8, 0x73u8, 0x65u8, 0x61u8, 0x72u8, 0x63u8, 0x68u8, 0x20u8, 0x47u8, 0x72u8, 0x6fu8, 0x75u8, 0x70u8],
-        ) == seq![0xa8u8, 0x06u8, 0x1du8, 0xc1u8, 0x30u8, 0x51u8, 0x36u8, 0xc6u8, 0xc2u8, 0x2bu8, 0x8bu8, 0xafu8, 0x0cu8, 0x01u8, 0x27u8, 0xa9u8],
-{
-    let key = seq![0x85u8, 0xd6u8, 0xbeu8, 0x78u8, 0x57u8, 0x55u8, 0x6du8, 0x33u8, 0x7fu8, 0x44u8, 0x52u8, 0xfeu8, 0x42u8, 0xd5u8, 0x06u8, 0xa8u8, 0x01u8, 0x03u8, 0x80u8, 0x8au8, 0xfbu8, 0x0du8, 0xb2u8, 0xfdu8, 0x4au8, 0xbfu8, 0xf6u8, 0xafu8, 0x41u8, 0x49u8, 0xf5u8, 0x1bu8];
-    let msg = seq![0x43u8, 0x72u8, 0x79u8, 0x70u8, 0x74u8, 0x6fu8, 0x67u8, 0x72u8, 0x61u8, 0x70u8, 0x68u8, 0x69u8, 0x63u8, 0x20u8, 0x46u8, 0x6fu8, 0x72u8, 0x75u8, 0x6du8, 0x20u8, 0x52u8, 0x65u8, 0x73u8, 0x65u8, 0x61u8, 0x72u8, 0x63u8, 0x68u8, 0x20u8, 0x47u8, 0x72u8, 0x6fu8, 0x75u8, 0x70u8];
-    let tag = seq![0xa8u8, 0x06u8, 0x1du8, 0xc1u8, 0x30u8, 0x51u8, 0x36u8, 0xc6u8, 0xc2u8, 0x2bu8, 0x8bu8, 0xafu8, 0x0cu8, 0x01u8, 0x27u8, 0xa9u8];
-    assert(poly_p() == 0x3_ffff_ffff_ffff_ffff_ffff_ffff_ffff_fffbnat) by (compute_only);
-    assert(poly_r(key) == 0x806d5400e52447c036d555408bed685nat) by (compute_only);
-    assert(poly_s(key) == 0x1bf54941aff6bf4afdb20dfb8a800301nat) by (compute_only);
-    assert(poly1305_tag_nat(key, msg) == 0xa927010caf8b2bc2c6365130c11d06a8nat) by (compute_only);
-    assert(poly1305_spec(key, msg) =~= tag) by (compute_only);
+pub proof fn kat_poly1305_rfc8439_2_5_2() {
+    assert(poly1305_spec(
+        seq![
+            0x85u8, 0xd6u8, 0xbeu8, 0x78u8, 0x57u8, 0x55u8, 0x6du8, 0x33u8, 0x7fu8, 0x44u8, 0x52u8, 0xfeu8,
+            0x42u8, 0xd5u8, 0x06u8, 0xa8u8, 0x01u8, 0x03u8, 0x80u8, 0x8au8, 0xfbu8, 0x0du8, 0xb2u8, 0xfdu8,
+            0x4au8, 0xbfu8, 0xf6u8, 0xafu8, 0x41u8, 0x49u8, 0xf5u8, 0x1bu8,
+        ],
+        seq![
+            0x43u8, 0x72u8, 0x79u8, 0x70u8, 0x74u8, 0x6fu8, 0x67u8, 0x72u8, 0x61u8, 0x70u8, 0x68u8, 0x69u8,
+            0x63u8, 0x20u8, 0x46u8, 0x6fu8, 0x72u8, 0x75u8, 0x6du8, 0x20u8, 0x52u8, 0x65u8, 0x73u8, 0x65u8,
+            0x61u8, 0x72u8, 0x63u8, 0x68u8, 0x20u8, 0x47u8, 0x72u8, 0x6fu8, 0x75u8, 0x70u8,
+        ],
+    ) =~= seq![
+            0xa8u8, 0x06u8, 0x1du8, 0xc1u8, 0x30u8, 0x51u8, 0x36u8, 0xc6u8, 0xc2u8, 0x2bu8, 0x8bu8, 0xafu8,
+            0x0cu8, 0x01u8, 0x27u8, 0xa9u8,
+        ]) by (compute);
 }
 
 } // verus!
